@@ -62,18 +62,24 @@ def gen_case(rnd, i):
         rules.append({"type": "assignment", "target": "kz", "ast": ["num", 0.0], "frequency": "repeated"})
         rx.append({"type": "massaction", "reactants": ["F1"], "products": ["F2"], "fields": {"k": "kz"}})
         feats.append("zero")
+    has_bc = rnd.random() < 0.7
     if rnd.random() < 0.7:
         species.append("S0")
         x0["S0"] = float(rnd.randint(1, 9))
-        kT = rnd.randint(1, n - 2)
+        kT = rnd.randint(1, n - 3)
         cval = float("%.4g" % rnd.uniform(10, 50))
         freq = "start" if rnd.random() < 0.2 else repr(kT * dt)
-        rules.append({"type": "assignment", "target": "S0", "ast": ["num", cval], "frequency": freq})
+        copy_counter = has_bc and freq != "start" and rnd.random() < 0.6
+        if copy_counter:
+            # the scheduled rule copies the running dt counter: a rule that keeps firing after its time would keep changing S0
+            rules.append({"type": "assignment", "target": "S0", "ast": ["+", ["sp", "Bc"], ["num", cval]], "frequency": freq})
+        else:
+            rules.append({"type": "assignment", "target": "S0", "ast": ["num", cval], "frequency": freq})
         feats.append("schedule")
-        sched = {"T": 0.0 if freq == "start" else kT * dt, "c": cval, "init": x0["S0"]}
+        sched = {"T": 0.0 if freq == "start" else kT * dt, "c": cval, "init": x0["S0"], "copy_counter": copy_counter, "k": kT}
     else:
         sched = None
-    if rnd.random() < 0.7:
+    if has_bc:
         species.append("Bc")
         x0["Bc"] = float(rnd.randint(0, 5))
         rules.append({"type": "assignment", "target": "Bc", "ast": ["+", ["sp", "Bc"], ["num", 1]], "frequency": "dt"})
@@ -226,7 +232,13 @@ def run_case(case):
                 after = s0[tp > sc["T"]]
                 if len(before) and not np.all(before == sc["init"]):
                     bad("scheduled-rule-early", mode, "rule S0=%r scheduled at t=%g changed a row before its time: %r" % (sc["c"], sc["T"], list(before[before != sc["init"]][:3])))
-                if len(after) and not np.all(after == sc["c"]):
+                if sc.get("copy_counter"):
+                    bc = col("Bc")
+                    allowed = set(float(v) + sc["c"] for v in bc[max(sc["k"] - 1, 0): sc["k"] + 3])
+                    if len(after) and not (np.all(after == after[0]) and float(after[0]) in allowed):
+                        bad("scheduled-rule-missed", mode, "rule S0=Bc+%r scheduled at t=%g: rows after it are %r..., expected one constant value among %r" % (
+                            sc["c"], sc["T"], list(after[:4]), sorted(allowed)))
+                elif len(after) and not np.all(after == sc["c"]):
                     bad("scheduled-rule-missed", mode, "rule S0=%r scheduled at t=%g does not govern the rows after it: %r" % (sc["c"], sc["T"], list(after[after != sc["c"]][:3])))
             # 4. dt counter
             if "dtcounter" in case["feats"]:
